@@ -622,6 +622,8 @@ class Interp:
                     v = val(ops[0])
                     if op == 'zext' and v.ty == 'i1':
                         env[iid] = T.ite(v, T.const_int(int(ty[1:]), 1), T.const_int(int(ty[1:]), 0))
+                    elif op == 'sext' and v.ty == 'i1':
+                        env[iid] = T.ite(v, T.const_int(int(ty[1:]), -1), T.const_int(int(ty[1:]), 0))
                     elif op == 'trunc' and ty == 'i1' and v.op == 'ite' and all(l.op == 'const' for _, l in T.leaves(v)):
                         env[iid] = T.subst(v, {})  # placeholder, replaced below
                         def tr(x):
